@@ -47,6 +47,10 @@ def run_sim_check(spec, tier, seed, replay=None):
         return False
 
     reported = 0
+    if "extra" in spec and not replay:
+        for tag, text in spec["extra"](rep, tier, seed)[:3]:
+            rep.violation("%s%d" % (tag, reported), text)
+            reported += 1
     for (c, ti, tm, why) in failing:
         if classify(c, ti, tm, why):
             continue
